@@ -65,7 +65,13 @@ static char rsz_bmobj[BM_NR];		/* the opaque bitmap handles are the addresses of
 #define BMH(i)		((ext2fs_block_bitmap)(void *)&rsz_bmobj[i])
 #define BMIDX(bm)	((int)((char *)(void *)(bm) - rsz_bmobj))
 
-static unsigned int rsz_tick(void) { G.n_events++; return ++G.clock; }
+static unsigned int rsz_tick(void)
+{
+	/* the clock and the counters are mathematical integers: they do not wrap (2^32 stub events are not a behaviour) */
+	ASSUME(G.clock < 0xfffffff0u && G.n_events < 0xfffffff0u);
+	G.n_events++;
+	return ++G.clock;
+}
 static unsigned char rsz_ch(void) { return IN.ch[G.nch++ % RSZ_NCH]; }
 static unsigned long long rsz_chv(void) { return IN.chv[G.nch++ % RSZ_NCH]; }
 
